@@ -57,9 +57,10 @@ func main() {
 	skipWitness = *noWitness
 	t0 := time.Now()
 
-	timeout := 120
+	timeout := 200
 	if *tier == "thorough" {
-		timeout = 300
+		timeout = 400
+		crossCheck = true
 	}
 	if *timeoutF > 0 {
 		timeout = *timeoutF
@@ -367,9 +368,15 @@ func main() {
 	coverGroups := map[string]*coverGroup{}
 	maxSecs := 0.0
 	slowest := ""
+	crossAgreed, crossUnconf := 0, 0
 	for _, o := range allObls {
 		if o.Res == nil {
 			continue
+		}
+		crossAgreed += o.Res.CrossAgreed
+		crossUnconf += o.Res.CrossUnconfirmed
+		for _, d := range o.Res.CrossDisagree {
+			genErrors = append(genErrors, "SOLVER DISAGREEMENT on "+o.Name+": "+d)
 		}
 		solverSecs += o.Res.Seconds
 		if o.Res.MaxSeconds > maxSecs {
@@ -624,6 +631,7 @@ func main() {
 			"solver_cpu_s":             round2(solverSecs),
 			"generation_s":             round2(genSecs),
 			"slowest_obligation":       map[string]interface{}{"name": slowest, "seconds": round2(maxSecs)},
+			"cross_solver_agreement": map[string]interface{}{"enabled": crossCheck, "queries_confirmed_by_second_solver_family": crossAgreed, "queries_not_confirmed_within_30s": crossUnconf, "note": "thorough tier only: every discharged query is re-run on cvc5 (if z3 answered) or z3 (if cvc5 answered); a 'sat' from the second solver is reported as an engine error"},
 			"covers_checked":           nCover,
 			"covers_vacuous":           nCoverBad,
 			"known_findings_hit":       knownHits,
